@@ -76,6 +76,15 @@ def cases(tier):
                        ([4, 1, 3], 4), ([5], None), ([2, 5], None)]:
         cs.append(('mux.chop', dict(segs=segs, part=part)))
     cs.append(('mux.wire_struct', dict()))
+    # the default object listed explicitly as well (at the first slot of a half / elsewhere); int LUTs whose
+    # default value also occurs in the table
+    for shared in ([4], [2], [4, 5], [0], [1, 6]):
+        cs.append(('mux.mux', dict(iw=3, n=7, w=3, default=True, shared=shared)))
+    for shared in ([2], [8], [12], [8, 9, 10]):
+        cs.append(('mux.mux', dict(iw=4, n=14, w=2, default=True, shared=shared)))
+    cs.append(('mux.mux', dict(iw=3, n=7, w=3, lut=[4, 3, 1, 7, 0, 6, 2], lut_default=0)))
+    cs.append(('mux.mux', dict(iw=3, n=6, w=3, lut=[5, 5, 1, 5, 5, 2], lut_default=5)))
+    cs.append(('mux.mux', dict(iw=2, n=4, w=3, lut=[7, 0, 3, 6])))
     # barrel_shifter: widths that are not powers of two with shift amounts reaching past the width
     for w in ((3, 5, 6, 7) if tier == 'quick' else (3, 5, 6, 7, 9, 10, 12)):
         for ws in (2, 3, 4):
